@@ -19,8 +19,9 @@ VARIABLES l,          \* next line
           sub, snv, scl, del, ready, answered,
           last,       \* last observation [st, nt, busy, idle] or the empty record
           phase,      \* "run" | "fair"
+          v7,         \* protocol variant of the current run (reserved token values differ)
           bad         \* sequence of [run, line, why]
-tvars == <<l, run, skip, sub, snv, scl, del, ready, answered, last, phase, bad>>
+tvars == <<l, run, skip, sub, snv, scl, del, ready, answered, last, phase, v7, bad>>
 
 Ch == INSTANCE Channel
 E2 == <<"c", "s">>
@@ -33,20 +34,20 @@ Init ==
   /\ l = 1 /\ run = 0 /\ skip = FALSE
   /\ sub = [e \in Ch!CE |-> <<>>] /\ snv = [e \in Ch!CE |-> {}] /\ scl = [e \in Ch!CE |-> {}]
   /\ del = [e \in Ch!CE |-> <<>>] /\ ready = 0 /\ answered = FALSE
-  /\ last = NoObs /\ phase = "run" /\ bad = <<>>
+  /\ last = NoObs /\ phase = "run" /\ v7 = FALSE /\ bad = <<>>
 
 Reset(ev) ==
   /\ run' = run + 1 /\ skip' = FALSE
   /\ sub' = [e \in Ch!CE |-> <<>>] /\ snv' = [e \in Ch!CE |-> {}] /\ scl' = [e \in Ch!CE |-> {}]
   /\ del' = [e \in Ch!CE |-> <<>>]
   /\ ready' = (IF ev.online THEN 1 ELSE 0) /\ answered' = ev.online
-  /\ last' = NoObs /\ phase' = "run"
+  /\ last' = NoObs /\ phase' = "run" /\ v7' = ev.v7
   /\ UNCHANGED bad
 
 Reject(why) ==
   /\ bad' = Append(bad, [run |-> run, line |-> l, why |-> why])
   /\ skip' = TRUE
-  /\ UNCHANGED <<run, sub, snv, scl, del, ready, answered, last, phase>>
+  /\ UNCHANGED <<run, sub, snv, scl, del, ready, answered, last, phase, v7>>
 
 \* endpoint whose application receives the events of this step
 Target(ev) == IF ev.a \in {"deliver", "dup"} THEN Ch!CPeer(ev.act.from)
@@ -73,11 +74,12 @@ Step(ev) ==
         ELSE IF ~Ch!Genuine(snv1, scl1, del1) THEN "C01: a delivered non-vital chunk was never sent"
         ELSE IF ~Ch!ReadyOnce(ready1, ans1) THEN "C01: ready more than once or before the acceptor answered"
         ELSE IF \E i \in 1..2 : o.busy[i] /\ o.nt[i] = -1 THEN "C02: work pending but no deadline reported"
+        ELSE IF \E i \in 1..2 : ev.tokens[i] \in (IF v7 THEN {"FF"} ELSE {"FF", "Z0"}) THEN "C03: a reserved value was handed out as token"
         ELSE "ok"
   IN IF why # "ok" THEN Reject(why)
      ELSE /\ sub' = sub1 /\ snv' = snv1 /\ scl' = scl1 /\ del' = del1 /\ ready' = ready1 /\ answered' = ans1
           /\ last' = o
-          /\ UNCHANGED <<run, skip, phase, bad>>
+          /\ UNCHANGED <<run, skip, phase, v7, bad>>
 
 Quiescent ==
   \/ last.st[1] = "Unc"
@@ -90,9 +92,9 @@ Next ==
   /\ l' = l + 1
   /\ LET ev == Rec[l] IN
      IF ev.a = "reset" THEN Reset(ev)
-     ELSE IF skip THEN UNCHANGED <<run, skip, sub, snv, scl, del, ready, answered, last, phase, bad>>
-     ELSE IF ev.a = "fair" THEN phase' = "fair" /\ UNCHANGED <<run, skip, sub, snv, scl, del, ready, answered, last, bad>>
-     ELSE IF ev.a = "end" THEN (IF Quiescent THEN UNCHANGED <<run, skip, sub, snv, scl, del, ready, answered, last, phase, bad>>
+     ELSE IF skip THEN UNCHANGED <<run, skip, sub, snv, scl, del, ready, answered, last, phase, v7, bad>>
+     ELSE IF ev.a = "fair" THEN phase' = "fair" /\ UNCHANGED <<run, skip, sub, snv, scl, del, ready, answered, last, v7, bad>>
+     ELSE IF ev.a = "end" THEN (IF Quiescent THEN UNCHANGED <<run, skip, sub, snv, scl, del, ready, answered, last, phase, v7, bad>>
                                 ELSE Reject("C02: not quiescent after the fair suffix"))
      ELSE Step(ev)
 
